@@ -340,6 +340,10 @@ fn consist_run(r: &mut Rng, t: usize, sink: &mut Sink, made: &mut usize) {
     let unit_m: Vec<Result<Option<f64>, ()>> = con.loco_vec.iter().map(|l| l.mass().map(|x| x.map(|q| q.value)).map_err(|_| ())).collect();
     if let Ok(Some(total)) = &m { let s: f64 = unit_m.iter().map(|x| x.clone().ok().flatten().unwrap_or(f64::NAN)).sum(); if !close_rel(*total, s) { fails.push(format!("consist mass {} is not the sum of its locomotives' masses {}", total, s)); } }
     if unit_m.iter().all(|x| matches!(x, Ok(Some(_)))) && !matches!(m, Ok(Some(_))) { fails.push("every locomotive reports a mass but the consist does not".into()); }
+    // a consist that mixes units of known and of unknown mass has no mass to report: saying "unknown" (Ok(None)) would let the
+    // train be built with the known masses silently dropped, so the getter has to refuse
+    let (n_some, n_none) = (unit_m.iter().filter(|x| matches!(x, Ok(Some(_)))).count(), unit_m.iter().filter(|x| matches!(x, Ok(None))).count());
+    if n_some > 0 && n_none > 0 && m.is_ok() { fails.push(format!("{} unit(s) report a mass and {} report none, yet the consist's mass() returns {:?} instead of refusing", n_some, n_none, m)); }
     let unit_f: Vec<Result<f64, ()>> = con.loco_vec.iter().map(|l| l.force_max().map(|q| q.value).map_err(|_| ())).collect();
     if let Ok(total) = &f { let s: f64 = unit_f.iter().map(|x| x.clone().unwrap_or(f64::NAN)).sum(); if !close_rel(*total, s) { fails.push(format!("consist force_max {} is not the sum of its units' {}", total, s)); } }
     if unit_f.iter().all(|x| x.is_ok()) && f.is_err() { fails.push("every unit reports force_max but the consist does not".into()); }
